@@ -213,6 +213,7 @@ func runC04(c *Ctx) {
 			ok = fromSha256OfParam(p, pa, call.Call.Args[3])
 		}
 		c.Check("C04-R3", "account-index-keyed-by-hash", pa.Pos(), ok, "the address->account index is not keyed by sha256(address id)")
+	checkHashedBucketKeys(c, "C04-R3")
 	}
 
 	// ---------- R4 ----------
@@ -280,6 +281,7 @@ func runC04(c *Ctx) {
 	checkUnlockRestoresWipedKeys(c, "C04-R7")
 	checkSnaclErrors(c, "C04-R7")
 	checkSelectedKeyUsedUnderLock(c, "C04-R6")
+	checkLiveKeysUsedUnderLock(c, "C04-R6")
 	// live crypto keys never wiped through an aliasing accessor outside the wipe functions
 	nZero := 0
 	for _, fn := range p.FuncsIn("waddrmgr") {
